@@ -258,11 +258,18 @@ func (c *c16) names() []string {
 
 func (c *c16) opGet(sm *setModel, name string, exec bool) {
 	t0, c0 := len(c.loader.Trace), len(c.ctrace)
-	hardBefore := c.loader.Fired[FaultOpenError] + c.loader.Fired[FaultReadError] + c.loader.Fired[FaultGarbage]
+	hardBefore := c.loader.Fired[FaultOpenError] + c.loader.Fired[FaultReadError] + c.loader.Fired[FaultGarbage] + c.loader.Fired[FaultPanic]
+	panicsBefore := c.loader.Fired[FaultPanic]
 	var t *jet.Template
 	var err error
 	pc := sim.Guard(func() { t, err = sm.set.GetTemplate(name) })
-	hardFired := c.loader.Fired[FaultOpenError] + c.loader.Fired[FaultReadError] + c.loader.Fired[FaultGarbage] - hardBefore
+	hardFired := c.loader.Fired[FaultOpenError] + c.loader.Fired[FaultReadError] + c.loader.Fired[FaultGarbage] + c.loader.Fired[FaultPanic] - hardBefore
+	if pc != nil && c.loader.Fired[FaultPanic] > panicsBefore {
+		// the loader itself panicked during this call: the panic may come out of GetTemplate as it is
+		// (a failed call like any other - nothing may be remembered, the next call tries again)
+		pc, err, t = nil, fmt.Errorf("the loader's panic came out of GetTemplate"), nil
+		c.env.Stat("probe:loader_panic_came_out_of_the_call", 1)
+	}
 	calls := append([]Call(nil), c.loader.Trace[t0:]...)
 	ccalls := append([]Call(nil), c.ctrace[c0:]...)
 	op := fmt.Sprintf("GetTemplate(%q) on set#%d.%d (%s, exts %q)", name, indexOf(c.sets, sm), sm.gen, c.mode(sm), c.exts)
@@ -418,7 +425,11 @@ func (c *c16) opExec(sm *setModel, t *jet.Template, name string) {
 	firedBefore := len(c.loader.Fired) + sumFired(c.loader)
 	var buf bytes.Buffer
 	var err error
+	panicsBefore := c.loader.Fired[FaultPanic]
 	pc := sim.Guard(func() { err = t.Execute(&buf, nil, nil) })
+	if pc != nil && c.loader.Fired[FaultPanic] > panicsBefore {
+		pc, err = nil, fmt.Errorf("the loader's panic came out of Execute")
+	}
 	faultDuringExec := len(c.loader.Fired)+sumFired(c.loader) != firedBefore
 	calls := append([]Call(nil), c.loader.Trace[t0:]...)
 	op := fmt.Sprintf("Execute(%q) on set#%d.%d (%s)", name, indexOf(c.sets, sm), sm.gen, c.mode(sm))
@@ -429,6 +440,11 @@ func (c *c16) opExec(sm *setModel, t *jet.Template, name string) {
 		return
 	}
 	c.checkExtOrder(sm, calls, op)
+	// every version of every file renders its own version marker (an extending template through its
+	// chain's root): a successful Execute that rendered none executed something no file ever contained
+	if err == nil && !faultDuringExec && reMarker.FindString(buf.String()) == "" {
+		c.env.Violate("rendered-version", c.mode(sm)+":rendered-no-file-content", "%s succeeded and rendered %q, which contains no version marker: no version of any file renders that\nhistory: %s", op, buf.String(), strings.Join(c.hist, " "))
+	}
 	// outside development mode, what an Execute loaded at run time (include, includeIfExists, exec)
 	// is remembered like any successful lookup: executing the same template again touches no loader
 	if !sm.dev {
@@ -528,7 +544,11 @@ func (c *c16) opParse(sm *setModel, name string) {
 	}
 	t0, c0 := len(c.loader.Trace), len(c.ctrace)
 	var err error
+	panicsBefore := c.loader.Fired[FaultPanic]
 	pc := sim.Guard(func() { _, err = sm.set.Parse(name, src) })
+	if pc != nil && c.loader.Fired[FaultPanic] > panicsBefore {
+		pc, err = nil, fmt.Errorf("the loader's panic came out of Parse")
+	}
 	calls := append([]Call(nil), c.loader.Trace[t0:]...)
 	ccalls := append([]Call(nil), c.ctrace[c0:]...)
 	op := fmt.Sprintf("Parse(%q, %q) on set#%d.%d (%s)", name, src, indexOf(c.sets, sm), sm.gen, c.mode(sm))
@@ -598,6 +618,10 @@ func RunC16(env *sim.Env) {
 	c.exts = extLists[t.Choose(len(extLists))]
 	c.mem = jet.NewInMemLoader()
 	c.loader = NewSimLoader(c.mem)
+	if t.Choose(4) == 3 {
+		c.loader.DataEOF = true // every reader delivers its last bytes together with io.EOF
+		env.Stat("probe:readers_deliver_last_bytes_together_with_EOF", 1)
+	}
 	c.bases = []string{"/a", "/b", "/base", "/d/e"}
 	// initial files
 	nonEmpty := []string{}
@@ -683,7 +707,7 @@ func RunC16(env *sim.Env) {
 			if !c.loader.Off && nFaults < 3 {
 				b := []string{"/a", "/b", "/d/e", "/base"}[t.Choose(4)]
 				if p, ok := c.resolve(b); ok {
-					kind := 1 + t.Choose(5)
+					kind := 1 + t.Choose(6)
 					k := t.Choose(8)
 					if f := c.files[p]; f != nil && f.pad > 0 && t.Choose(2) == 1 {
 						k = t.Choose(len(f.content(p)) + 1) // the read fails somewhere inside a long file
